@@ -298,6 +298,17 @@ def run(rep, tier):
     shutil.copytree(REPO / "library", scratch3)
     add([{"op": "load", "name": "nat"}, {"op": "touch", "name": "nat", "const": "verif_new_c3", "mtime_delta": -10},
          {"op": "load", "name": "nat"}], str(scratch3))
+    # a file is given another import list after it (or its new import) was loaded: the metadata must follow the files
+    if "expr" in lib and "set" in lib and "set" not in lib["expr"]["imports"]:
+        scratch4 = wd / "lib_edit4"
+        shutil.copytree(REPO / "library", scratch4)
+        more = lib["expr"]["imports"] + ["set"]
+        add([{"op": "load", "name": "expr"}, {"op": "reimport", "name": "expr", "imports": more}, {"op": "load", "name": "expr"}], str(scratch4))
+        if not quick:
+            scratch5 = wd / "lib_edit5"
+            shutil.copytree(REPO / "library", scratch5)
+            add([{"op": "load", "name": "set"}, {"op": "reimport", "name": "expr", "imports": more}, {"op": "load", "name": "expr"},
+                 {"op": "load", "name": "set"}], str(scratch5))
     cyc = wd / "lib_cycle"
     shutil.copytree(REPO / "library", cyc)
     d = json.load(open(cyc / "logic.json", encoding="utf-8"))
@@ -369,7 +380,7 @@ def run(rep, tier):
             e.setdefault("name", "")
             e.setdefault("limit", ["none", "none"])
             e["canon"] = "none"
-            if e["op"] == "load" and not e["edits"] and not e["cyclic"] and e["limit"] == ["none", "none"]:
+            if e["op"] == "load" and not e["edits"] and not e.get("reimports") and not e["cyclic"] and e["limit"] == ["none", "none"]:
                 e["canon"] = canon.get(e["name"], "none")
             e["key"] = "%s after %s" % (json.dumps([e["op"], e["name"], e["limit"]]), json.dumps(e["hist"]))
             e.pop("items", None)
@@ -411,8 +422,8 @@ def replay(path):
     print("history:", e["hist"], "then", e["op"], e.get("name"), e.get("limit"), "->", e["outcome"], e.get("message", ""))
     print("clause:", obj["clause"], "; re-run `./check C12 quick` to re-execute the histories against the current tree")
     wd = work_dir("C12", "replay1", clean=True)
-    ops = [op_of(k, t) if k != "touch" else None for k, t in e["hist"]]
-    if None in ops or e.get("cyclic") or e.get("edits"):
+    ops = [op_of(k, t) if k not in ("touch", "reimport") else None for k, t in e["hist"]]
+    if None in ops or e.get("cyclic") or e.get("edits") or e.get("reimports"):
         return 1
     lim = e.get("limit")
     ops.append({"op": "load", "name": e["name"], "limit": None if lim == ["none", "none"] else ("start" if lim == ["start", "start"] else lim)})
